@@ -40,6 +40,8 @@ def patched_sources(sid, base=None):
             if rel in base:
                 with open(dst, "w") as fh:
                     fh.write(base[rel])
+            elif os.path.exists(os.path.join(repo_root(), rel)):
+                shutil.copy(os.path.join(repo_root(), rel), dst)  # a test file the patch also touches
         r = subprocess.run(["git", "apply", "--whitespace=nowarn", patch], cwd=tmp, capture_output=True, text=True)
         if r.returncode != 0:
             return None, "patch does not apply to the current tree: " + r.stderr.strip()[:200]
